@@ -40,6 +40,24 @@ claimed = {
  'C29': ('exploration', 'differential execution through the ABCI snapshot calls: two producers (one restarted) compared chunk by chunk; restored node compared on Info, queries, export and all following blocks',
          'Snapshots of two producers must be byte-equal; a node restored through OfferSnapshot/ApplySnapshotChunk must report the producer height/hash and then answer every later block identically, with equal queries and exports.',
          'snapshot completion awaited by hook + bounded polling; chunks transferred unmodified', '5/C29'),
+ 'C12': ('exploration', 'runtime monitor: the four bancor functions judged against an independent 1024-bit/exact-rational reference (HighPrec) on log-uniform, structured and corner tuples',
+         'Closeness to the exact formulas within a calibrated, frozen floating-point tolerance, non-negativity, sale return <= reserve, monotonicity on amount chains (incl. neighbours), full-supply sale = reserve, and buy-then-sell round trips. Known finding: reserves above 2^100 pip.',
+         'tolerance constants calibrated on the unchanged tree with a 2^10 margin; domain = what transactions can pass', '5/C12'),
+ 'C13': ('exploration', 'runtime monitor on the real swap package over a bare state: reserves observed around every create/mint/burn/trade (with and without order books), transaction-layer pre-checks applied first',
+         'Reserve product never decreases in trades, payouts never exceed reserves, mint-then-burn and proportional-share bounds, locked minimum liquidity; panics after a passed pre-check are violations. Known findings stem from the order-list cache defects.',
+         'package level: the same pre-checks as the transaction layer decide which calls are legal', '5/C13'),
+ 'C14': ('exploration', 'runtime monitor: independent reference order book fed only by API results, long add/fill/cancel/expire/commit/reload interleavings on books of up to 3000 orders',
+         'Fill order (price then id), per-fill price within one unit, partial-fill ratio, little-remainder closure, exact refunds once, exported book = reference after commits and reloads. Known findings: the lazily paged sorted-id cache breaks priority, duplicates ids and can loop.',
+         'priority demanded only where unambiguous (float64-equal prices, partially filled orders carry a price interval)', '5/C14'),
+ 'C23': ('exploration', 'runtime monitor: canonical round trip and independent strict RLP parser on ~3e5 structure-aware mutated encodings per run; signer binding and malleability oracles; cgo vs pure-Go vs asan re-judging of the crypto corpus (thorough)',
+         'Every byte string that decodes must re-encode to itself and be canonical; signatures must bind the harness key; no same-hash-same-sender re-encodings. Known findings: multisig signature-set malleability; cgo/nocgo disagreement on malformed recovery input.',
+         'multisig admission judged through the real executor on an in-memory state', '5/C23'),
+ 'C24': ('exploration', 'runtime monitor: round trip at the events store boundary (memdb and goleveldb, new store objects, reopen) with address/pubkey pools crossing the 255 and 65535 id boundaries',
+         'Events of all 12 types must load back JSON-equal for every height after every kind of restart. Known finding: uint16 public-key ids wrap at 65535 distinct keys.',
+         'expected JSON computed before the store sees the event', '5/C24'),
+ 'C20': ('exploration', 'small-scope enumeration at runtime: all subsets of n<=6 validators with stake vectors hitting exactly 2/3 and +-1 pip vote for their own target heights; exact-integer reference decision compared with the node effect',
+         'For each voted height the reference decides 3*support > 2*present power in integers; the node must adopt/ignore the network update, commission table or halt accordingly; past-height and duplicate votes must be rejected.',
+         'pure base-coin validator stakes, no payout inside a history; halt observed through the stopped flag (stub node)', '5/C20'),
  'C07': ('exploration', 'recover()-guarded ABCI calls in supervised child processes under hostile histories and byte-level mutated inputs',
          'Any recovered panic or worker death during CheckTx/DeliverTx/BeginBlock/EndBlock/Commit is a violation with the recorded history as witness.',
          'os.Exit on accepted halt excluded; fatal runtime errors are caught by child supervision', '5/C07'),
